@@ -6,6 +6,7 @@ package mv
 import (
 	"fmt"
 	"math/big"
+	"strings"
 
 	"github.com/gocql/gocql"
 	"gocqlverif/hlib"
@@ -410,6 +411,9 @@ func GenNative(r *hlib.Rng, id int, mode int) *Val {
 		}
 		return VUUID(b)
 	case id == 0x10:
+		if r.Chance(35) {
+			return VStr(r.Chance(5), InetString(r))
+		}
 		switch r.Intn(6) {
 		case 0:
 			return VIP(r.Bytes(4))
@@ -938,7 +942,7 @@ func DocSources(r *hlib.Rng, id int) []*Val {
 		m := make([]byte, 16)
 		m[10], m[11] = 0xff, 0xff
 		copy(m[12:], r.Bytes(4))
-		return []*Val{VIP(r.Bytes(4)), VIP(r.Bytes(16)), VIP(m)}
+		return []*Val{VIP(r.Bytes(4)), VIP(r.Bytes(16)), VIP(m), VStr(false, InetString(r)), VStr(false, InetString(r))}
 	case id == 0x11:
 		return []*Val{VInt64(I64, false, int64(r.Intn(400000000)-200000000)*1000+int64(r.Intn(1000))), RandTime(r), PreEpochTime(r)}
 	case id == 0x15:
@@ -958,4 +962,101 @@ func PreEpochTime(r *hlib.Rng) *Val {
 		v.Zone = int(r.Pick(3600, -7200, 19800, -43200))
 	}
 	return v
+}
+
+// BytesCase: a value containing byte strings and target types in which every byte-slice-kinded position
+// ([]byte, defined []byte types, pointers to them; as column, list / set element, map value, tuple and UDT
+// component) is decoded: the positions where a decoder could hand out memory of the input buffer.
+type BytesCase struct {
+	T  *Ty
+	V  *Val
+	Gs []*GTy
+}
+
+func BytesCases(r *hlib.Rng) []BytesCase {
+	B, NB, S := TK("bytes"), TKN("bytes", true), TK("str")
+	nb := func() []byte { return r.Bytes(1 + r.Intn(12)) }
+	blob, text := Native(gocql.TypeBlob), Native(gocql.TypeText)
+	var cs []BytesCase
+	for _, t := range []*Ty{blob, text, Native(gocql.TypeAscii), Native(gocql.TypeVarchar)} {
+		cs = append(cs, BytesCase{t, VBytes(r.Bool(), nb()), []*GTy{B, NB, TPtr(NB), TPtr(TPtr(NB)), TPtr(B), S, TKN("str", true)}})
+	}
+	cs = append(cs,
+		BytesCase{&Ty{K: "list", E: blob}, VSlice(NB, []*Val{VBytes(true, nb()), VBytes(true, nb())}),
+			[]*GTy{TSlice(NB), TSlice(B), TSlice(TPtr(NB)), TArray(2, NB), TPtr(TSlice(TPtr(B)))}},
+		BytesCase{&Ty{K: "set", E: text}, VSlice(B, []*Val{VBytes(false, nb())}),
+			[]*GTy{TSlice(NB), TSlice(B), TSlice(TPtr(NB)), TArray(1, B)}},
+		BytesCase{&Ty{K: "map", Key: text, E: blob}, VMapOf(S, B, [][2]*Val{{VStr(false, "k"), VBytes(false, nb())}}, false),
+			[]*GTy{TMapOf(S, NB), TMapOf(S, B), TMapOf(S, TPtr(NB)), TMapOf(TKN("str", true), TPtr(B))}},
+		BytesCase{&Ty{K: "list", E: &Ty{K: "list", E: blob}}, VSlice(TSlice(B), []*Val{VSlice(B, []*Val{VBytes(false, nb())})}),
+			[]*GTy{TSlice(TSlice(NB)), TSlice(TSlice(B))}},
+		BytesCase{&Ty{K: "tuple", Es: []*Ty{blob, text}}, VIfaces([]*Val{VBytes(false, nb()), VBytes(true, nb())}),
+			[]*GTy{TIfaces([]*GTy{NB, TPtr(NB)}), TIfaces([]*GTy{TPtr(B), B}), TStruct([]string{"F0", "F1"}, []string{"", ""}, []*GTy{B, S}), TSlice(TK("iface"))}},
+		BytesCase{&Ty{K: "udt", Es: []*Ty{blob, text}, Names: []string{"a", "b"}}, VStrMap([]string{"a", "b"}, []*Val{VBytes(false, nb()), VBytes(true, nb())}, false),
+			[]*GTy{TK("strmap"), TStruct([]string{"G0", "G1"}, []string{"a", "b"}, []*GTy{NB, TPtr(NB)}), TStruct([]string{"G0", "G1"}, []string{"a", "b"}, []*GTy{B, TPtr(B)})}},
+	)
+	return cs
+}
+
+// InetString: textual IP addresses as users write them: dotted IPv4, full and compressed IPv6 in either
+// case, IPv4-mapped IPv6 in both spellings, IPv6 with an embedded IPv4 tail; and strings that are not
+// addresses (leading zeros, too many / too few fields, zones, ports, stray characters)
+func InetString(r *hlib.Rng) string {
+	hexd := func(v int, upper bool) string {
+		if upper {
+			return fmt.Sprintf("%X", v)
+		}
+		return fmt.Sprintf("%x", v)
+	}
+	v4 := func() string {
+		return fmt.Sprintf("%d.%d.%d.%d", r.Pick(0, 1, 10, 127, 192, 255, int64(r.Intn(256))), r.Intn(256), r.Pick(0, 9, 168, int64(r.Intn(256))), r.Intn(256))
+	}
+	upper := r.Chance(30)
+	groups := make([]int, 8)
+	for i := range groups {
+		switch r.Intn(4) {
+		case 0:
+			groups[i] = 0
+		case 1:
+			groups[i] = r.Intn(16)
+		default:
+			groups[i] = r.Intn(65536)
+		}
+	}
+	full := func(gs []int, pad bool) string {
+		ss := make([]string, len(gs))
+		for i, g := range gs {
+			ss[i] = hexd(g, upper)
+			if pad {
+				ss[i] = fmt.Sprintf("%04x", g)
+			}
+		}
+		return strings.Join(ss, ":")
+	}
+	switch r.Intn(14) {
+	case 0, 1:
+		return v4()
+	case 2:
+		return full(groups, r.Chance(30))
+	case 3: // compressed: a run of zero groups written as ::
+		a, n := r.Intn(7), 1+r.Intn(4)
+		if a+n > 8 {
+			n = 8 - a
+		}
+		left, right := full(groups[:a], false), full(groups[a+n:], false)
+		return left + "::" + right
+	case 4:
+		return []string{"::", "::1", "1::", "::ffff:0:0", "fe80::1", "2001:db8::", "0:0:0:0:0:0:0:0", "::0.0.0.0", "1:2:3:4:5:6:7::", "::2:3:4:5:6:7:8"}[r.Intn(10)]
+	case 5: // IPv4-mapped, dotted tail
+		return []string{"::ffff:", "::FFFF:", "0:0:0:0:0:ffff:", "::0:ffff:", "0::ffff:"}[r.Intn(5)] + v4()
+	case 6: // IPv4-mapped, hex tail
+		return fmt.Sprintf("%s%s:%s", []string{"::ffff:", "::FFFF:", "0:0:0:0:0:FFFF:"}[r.Intn(3)], hexd(r.Intn(65536), upper), hexd(r.Intn(65536), upper))
+	case 7: // other embedded IPv4 tails
+		return []string{"64:ff9b::", "::", "1:2:3:4:5:6:", "::1:", "2001:db8::"}[r.Intn(5)] + v4()
+	case 8:
+		return []string{"", " ", "1.2.3", "1.2.3.4.5", "01.2.3.4", "1.2.3.256", "1.2.3.4 ", " 1.2.3.4", "1..3.4", ".1.2.3", "1.2.3.", "1.2.3.4:80", "a.b.c.d", "0x1.2.3.4", "1.2.3.+4"}[r.Intn(15)]
+	case 9:
+		return []string{":", ":::", "1:2", "1:2:3:4:5:6:7", "1:2:3:4:5:6:7:8:9", "::1::", "1::2::3", "12345::", "g::", "fe80::1%eth0", "::1%", "[::1]", "1:2:3:4:5:6:7:8:", ":1:2:3:4:5:6:7:8", "1:2:3:4:5:6:7:1.2.3.4", "::1.2.3", "::ffff:1.2.3.04", "1:2:3:4:5:6:7:8::", "::1:2:3:4:5:6:7:8", "localhost"}[r.Intn(20)]
+	}
+	return v4()
 }
